@@ -24,6 +24,8 @@ theorem const_quic :
     Gen.quic_InitialPacketSize = 1280 ∧ Gen.quic_MinInitialPacketSize = 1200 ∧
     Gen.quic_MinPacingDelayNs = 1000000 ∧ Gen.quic_MaxPacketBufferSize = 1452 := by decide
 theorem const_invalid_packet_number : Gen.bbr_invalidPacketNumberNeg = 1 := by decide
+/-- pacer.go: maxBurstPackets = 10, maxBurstPacingDelayMultiplier = 4 (the literals of `Bbr.maxBurst`) -/
+theorem const_pacer : Gen.pacer_maxBurstPackets = 10 ∧ Gen.pacer_maxBurstPacingDelayMultiplier = 4 := by decide
 /-- the PROBE_BW gain cycle has `gainCycleLength` = 8 entries: 1.25, 0.75, then 1.0 -/
 theorem const_gain_table :
     Bbr.gainTable.length = Gen.bbr_gainCycleLength ∧ Gen.bbr_gainCycleLength = 8 ∧
@@ -62,6 +64,12 @@ theorem ring_refines_deque_run {α : Type} [Inhabited α] (n : Nat) (ops : List 
     (hp : ∀ op ∈ ops, op.isPublic = true) :
     RefinesRun (implRun (init n : RB α) ops) (specRun [] ops) :=
   run_refines ops _ _ (rel_init n) hp
+
+/-- the hypotheses of the one-step theorem are met by a wrapped, full ring (`Rel` = well-formed and
+    holding exactly that queue; `grow` is in its domain because the ring is full) -/
+example : Rel ({ ring := [3, 1, 2], head := 1, tail := 1, full := true } : RB Nat) [1, 2, 3] ∧
+    (ROp.grow : ROp Nat).inDomain ({ ring := [3, 1, 2], head := 1, tail := 1, full := true } : RB Nat) := by
+  refine ⟨⟨⟨by decide, by decide, by decide, by decide⟩, by decide⟩, Or.inl rfl⟩
 
 /-- a concrete wrapped + grown run meets the hypotheses and is not trivial -/
 example : implRun (init 2 : RB Nat)
@@ -104,6 +112,10 @@ theorem pnq_inv (q : PNQ) (h : Inv q) (op : Op) (hw : op.wellFormed) :
   | removeUpTo n =>
     obtain ⟨q', h1, h2, _, _⟩ := removeUpTo_spec h n
     exact ⟨q', .unit, by simp [PNQ.step, h1], h2⟩
+
+/-- `Op.wellFormed` is met by every QUIC packet number and by the invalid marker −1 -/
+example : (Op.emplace 0 (some 7)).wellFormed ∧ (Op.emplace (-1) none).wellFormed ∧ (Op.removeUpTo (-5)).wellFormed := by
+  simp [Op.wellFormed]
 
 /-- **pnq_no_panic**: from `newPacketNumberIndexedQueue(n)` (any initial capacity), every
     sequence of operations with arbitrary packet numbers ≥ −1 (in any order, with gaps,
@@ -150,6 +162,12 @@ theorem slots_span (n : Nat) (ops : List Op) (hw : ∀ op ∈ ops, op.wellFormed
     QUIC's RTT statistics, the random gain-cycle offset and every float-scaled quantity as
     ARBITRARY inputs (`Env`); every theorem below holds for all of them. -/
 
+/-- (for the non-vacuity examples) the run returned and the state satisfies `p` -/
+def _root_.Hy.Res.okAnd {α} (r : Res α) (p : α → Bool) : Bool :=
+  match r with
+  | .ok a => p a
+  | _ => false
+
 open Hy.Bbr in
 /-- **cwnd_bounds**: after construction (any profile, any datagram size > 0) and after every
     sequence of OnPacketSent / SetMaxDatagramSize / OnCongestionEventEx calls that returns — with
@@ -162,6 +180,25 @@ theorem cwnd_bounds (cfg : Bbr.Cfg) (mds : Nat) (hm : 0 < mds) (evs : List Bbr.E
     4 * s.mds ≤ Bbr.getCwnd s ∧ Bbr.getCwnd s ≤ 20000 * s.mds := by
   have h := Bbr.bounds_of_inv s (Bbr.run_inv evs _ (Bbr.new_inv cfg mds hm) s hr)
   simpa [Bbr.minPk, Bbr.maxPk, Gen.bbr_minCongestionWindowPackets, Gen.quic_MaxCongestionWindowPackets] using h
+
+/-- the hypothesis `run … = .ok s` of the theorems of this section is met by a non-trivial trace
+    (conservative profile: an ack, a datagram-size increase, an ack with a loss) -/
+example :
+    (Bbr.run (Bbr.new Bbr.conCfg 1280)
+      [.sent 1280 0, .sent 2560 1, .sent 3840 2,
+       .cong { prior := 3840, now := 5000000, acked := [(0, 1280)], lost := [],
+               env := { sampleValid := true, sampleAppLimited := false, sendStateInflight := 1280, sampleRtt := some 4000000,
+                        bytesAcked := 1280, bytesLost := 0, totalAcked := 1280, excessAcked := 0, maxAckHeight := 0,
+                        bw := 2560000, rttMin := 4000000, tgtPacing := 0, tgt1 := 5120, tgtCwnd := 71680,
+                        growthTarget := 0, lossThresh := 0, targetRate := 5760000, rnd := 4 } },
+       .mds 1452,
+       .cong { prior := 2560, now := 9000000, acked := [(2, 1280)], lost := [(1, 1280)],
+               env := { sampleValid := true, sampleAppLimited := false, sendStateInflight := 3840, sampleRtt := some 4000000,
+                        bytesAcked := 1280, bytesLost := 1280, totalAcked := 2560, excessAcked := 0, maxAckHeight := 0,
+                        bw := 2560000, rttMin := 4000000, tgtPacing := 0, tgt1 := 5808, tgtCwnd := 71680,
+                        growthTarget := 3200000, lossThresh := 76, targetRate := 5760000, rnd := 4 } }]).okAnd
+      (fun s => s.mds == 1452 && s.roundTripCount == 1 && s.cwnd == 43520 && s.initCwnd == 46464 &&
+                s.numLossEventsInRound == 1) = true := by decide
 
 /-- **recovery_window_floor**: whenever the sender is in recovery at an event boundary, the
     recovery window is at least 4·mds (it is zeroed when recovery is entered and re-floored by
